@@ -3572,7 +3572,7 @@ impl KotoVm {
                     loop {
                         match value {
                             KValue::Map(m) if m.contains_meta_key(&MetaKey::Base) => {
-                                if visited.iter().any(|v| v.is_same_instance(&m)) {
+                                if visited.iter().any(|v| v.is_same_meta_instance(&m)) {
                                     break;
                                 }
                                 let base = m.get_meta_value(&MetaKey::Base).unwrap();
